@@ -78,8 +78,11 @@ func (s *state) ProcessDescriptor(desc SegmentationDescriptor) ([]SegmentationDe
 						// Duplicate desc found
 						return nil, gots.ErrSCTE35DuplicateDescriptor
 					}
-					e.descs = append(e.descs, desc)
-					descAdded = true
+					if !descAdded {
+						// record the descriptor once, not once per descriptor already stored for this time
+						e.descs = append(e.descs, desc)
+						descAdded = true
+					}
 				}
 				// check if we have seen a VSS signal with the same signalId and
 				// same eventId before.
